@@ -13,7 +13,9 @@ F = wire.fields
 
 
 def _cfg(cmds, versions=VERSIONS, **extra):
-    return lambda tier=None: [dict({"version": v, "cmd": c}, **extra) for v in versions for c in cmds]
+    from .gw_logic import split_internal
+
+    return lambda tier=None: split_internal([dict({"version": v, "cmd": c}, **extra) for v in versions for c in cmds])
 
 
 # ------------------------------------------------------------------------------------------- C06
